@@ -3,7 +3,7 @@ glue that turns TLC runs and replays into verdicts and evidence."""
 from . import pipeline
 from .common import Report
 
-CFG = """SPECIFICATION SpecL{level}
+CFG = """SPECIFICATION {spec}
 CONSTANTS
   Keys <- {keys}
   LookupKeys <- {look}
@@ -30,7 +30,7 @@ def cfg(*, keys="KQuick", look="LQuick", vals="VQuick", maxlive=3, maxbatch=2, m
         prune=prune, features=features, bugs=bugs,
         invariants="\n".join(f"INVARIANT {i}" for i in invariants),
         properties="\n".join(f"PROPERTY {p}" for p in properties),
-        level=level, view=view,
+        spec="Spec" if level is None else f"SpecL{level}", view=view,
         emit=f"ACTION_CONSTRAINT {emit}" if emit else "")
 
 
@@ -41,10 +41,15 @@ LEVEL = "model_checking"
 
 def run_spec_to_code(rep, cfg_text, opts=(), owners=None, **kw):
     res = pipeline.spec_to_code(rep, "MC_Hexary", cfg_text, REPLAYER, opts, owners=owners, **kw)
+    if kw.get("simulate"):
+        rep.cov.setdefault("tlc_runs", []).append(
+            {"module": "MC_Hexary", "mode": "simulate", "behaviours": res.traces, "steps": res.generated,
+             "depth": kw["simulate"]["depth"], "emitted": res.emitted, "wall_s": round(res.wall, 1)})
+        return res
     rep.cov["exhaustive"] = True
     rep.cov.setdefault("tlc_runs", []).append(
-        {"module": "MC_Hexary", "distinct_states": res.distinct, "transitions": res.generated,
-         "depth": res.depth, "emitted": res.emitted, "wall_s": round(res.wall, 1)})
+        {"module": "MC_Hexary", "mode": "exhaustive", "distinct_states": res.distinct,
+         "transitions": res.generated, "depth": res.depth, "emitted": res.emitted, "wall_s": round(res.wall, 1)})
     return res
 
 
@@ -85,11 +90,22 @@ ASSUME = ["database is a dict started empty", "hash = identity in the model: kec
 
 
 def generic(prop, tier, quick, thorough, *, opts=(), modes=("plain",), ntr=(60, 600), prune=None,
-            need_tags=()):
+            need_tags=(), sim=None, sim_n=(24, 600), sim_depth=(10, 14)):
     rep = Report(prop, tier, LEVEL)
     rep.assumptions += ASSUME
     for kw in (quick if tier == "quick" else thorough):
         run_spec_to_code(rep, cfg(**kw), opts)
+    # random genuine behaviours of the same specification, replayed step by step: the
+    # exhaustive run reaches every transition through a shortest history only, this run
+    # reaches states through long and redundant histories (overwrites, no-ops, re-creations)
+    q = tier == "quick"
+    for kw in ([sim] if isinstance(sim, dict) else (sim or [])):
+        kw = dict(kw, level=None)
+        if kw.get("emit", "x") is None:
+            kw["emit"] = "EmitAll"
+        kw["invariants"] = [i for i in kw.get("invariants", ()) if not i.startswith("EmitSt")]
+        run_spec_to_code(rep, cfg(**kw), opts,
+                         simulate=dict(num=sim_n[0] if q else sim_n[1], depth=sim_depth[0] if q else sim_depth[1]))
     if modes:
         run_code_to_spec(rep, modes, ntr[0] if tier == "quick" else ntr[1], prune)
     for t in need_tags:
@@ -104,7 +120,9 @@ def c01(tier):
                    [dict(invariants=inv, level=5, emit="EmitC01")],
                    [dict(keys="KFull", look="LFull", vals="VFull", maxlive=4, maxbatch=3,
                          invariants=inv, level=6, emit="EmitC01")],
-                   modes=("plain", "batch"), ntr=(100, 1500))
+                   modes=("plain", "batch"), ntr=(100, 1500),
+                   sim=dict(keys="KFull", look="LFull", vals="VFull", maxlive=4, maxbatch=3, invariants=inv,
+                            features="FBatchNoop", emit="EmitC01"))
 
 
 def c02(tier):
@@ -122,6 +140,9 @@ def c02(tier):
                     dict(keys="KLong", look="LLong", vals="VLong", maxlive=4, invariants=inv,
                          properties=pr, level=5, emit="EmitC01")],
                    modes=("plain", "batch"), ntr=(100, 1500),
+                   sim=[dict(th, vals="VThreshC", features="FBatchNoop", maxlive=4),
+                        dict(keys="KFull", look="LFull", vals="VFull", maxlive=4, maxbatch=3, invariants=inv,
+                             properties=pr, features="FBatchNoop", emit="EmitC01")],
                    need_tags=("child-node-of-31-bytes", "child-node-of-32-bytes", "embedded-child",
                               "hashed-child", "root-shorter-than-32-bytes"))
 
@@ -134,7 +155,8 @@ def c04(tier):
                    [dict(base, level=4, view="ViewFull")],
                    [dict(base, level=5, view="ViewFull"),
                     dict(base, level=6, view="ViewLight", invariants=["Readable"])],
-                   opts=("past",), modes=("second", "batch"), ntr=(80, 1000), prune=False)
+                   opts=("past",), modes=("second", "batch"), ntr=(80, 1000), prune=False,
+                   sim=dict(base, features="FHistNoop", view="ViewFull", maxlive=4))
 
 
 def c05(tier):
@@ -145,7 +167,10 @@ def c05(tier):
                    [dict(base, level=5)],
                    [dict(base, level=7, maxbatch=3, features="FBatchNoop"),
                     dict(base, level=6, keys="KShare", look="LShare", vals="VShare", maxbatch=3)],
-                   modes=("batch",), ntr=(100, 1500))
+                   modes=("batch",), ntr=(100, 1500),
+                   sim=[dict(base, features="FBatchFailNoop", maxbatch=4, maxlive=4),
+                        dict(base, features="FBatchFailNoop", keys="KShare", look="LShare", vals="VShare",
+                             maxbatch=4, maxlive=4)])
 
 
 def c06(tier):
@@ -159,6 +184,10 @@ def c06(tier):
                     dict(base, level=7, keys="KShare", look="LShare", vals="VShare", maxlive=4,
                          features="FBatchNoop", maxbatch=3)],
                    modes=("plain", "batch"), ntr=(100, 1500), prune=True,
+                   sim=[dict(base, features="FBatchNoop", maxbatch=4, maxlive=4, keys="KFull", look="LFull",
+                             vals="VFull"),
+                        dict(base, features="FBatchNoop", keys="KShare", look="LShare", vals="VShare",
+                             maxbatch=4, maxlive=4)],
                    need_tags=("ref-count>=2", "hashed-child", "embedded-child"))
 
 
@@ -173,6 +202,7 @@ def c07(tier):
                     dict(base, level=5, prune="OnlyPrune", keys="KFaults3", maxlive=2, maxbatch=1)],
                    [dict(base, level=6, maxlost=3), dict(base, level=5, vals="VQuick")],
                    modes=("faults",), ntr=(150, 2000),
+                   sim=dict(base, features="FFaultsNoop", maxlost=3, maxlive=4, emit="EmitC07"),
                    need_tags=("missing-node-outcome", "incomplete-database", "calls:traverse:missing"))
 
 
@@ -182,7 +212,9 @@ def c08(tier):
     return generic("C08", tier,
                    [dict(base, level=5)],
                    [dict(base, level=6, keys="KFull", look="LFull", vals="VQuick", maxlive=4)],
-                   modes=(), need_tags=("has-extension", "has-branch", "embedded-child", "hashed-child"))
+                   modes=(), need_tags=("has-extension", "has-branch", "embedded-child", "hashed-child"),
+                   sim=dict(base, features="FBatchNoop", keys="KFull", look="LFull", vals="VQuick", maxlive=5,
+                            emit="EmitC08"), sim_n=(12, 240))
 
 
 def c03(tier):
@@ -192,7 +224,10 @@ def c03(tier):
                    [dict(base, level=4)],
                    [dict(base, level=5, keys="KFull", look="LFull", vals="VQuick", maxlive=4),
                     dict(base, level=5, prune="OnlyPrune")],
-                   modes=(), need_tags=("has-extension", "has-branch", "embedded-child", "hashed-child"))
+                   modes=(), need_tags=("has-extension", "has-branch", "embedded-child", "hashed-child"),
+                   sim=dict(base, features="FDirectNoop", keys="KFull", look="LFull", vals="VQuick", maxlive=4,
+                            emit="EmitC03", invariants=["ProofComplete", "ProofOnPath"]), sim_n=(12, 120),
+                   sim_depth=(5, 9))
 
 
 CHECKS = {"C01": c01, "C03": c03, "C07": c07, "C08": c08, "C02": c02, "C04": c04, "C05": c05, "C06": c06}
